@@ -634,6 +634,7 @@ class P(Prop):
         if any(tms[i] > tms[i + 1] for i in range(n - 1)):
             return None
         tmax = max(abs(t) for t in tms) / 1000.0
+        zmax = 3600.0 * max([abs(z) for z in zones or [0]])       # instants = readings shifted by the zone: float seconds of that size
         for i in range(n):
             a, b = (1, 0) if i == 0 else (n - 1, n - 2) if i == n - 1 else (i + 1, i - 1)
             els = [Fraction(tms[a] - tms[b], 1000)]
@@ -651,7 +652,8 @@ class P(Prop):
                 if el == 0:
                     continue
                 fe = float(el)
-                rel = 1e-9 + (4 * ulp(tmax) / abs(fe) if any(t % 1000 for t in tms) else 0.0)
+                tm = tmax + zmax
+                rel = 1e-9 + (4 * ulp(tm) / abs(fe) if any(t % 1000 for t in tms) else 0.0)
                 wlo, whi = sorted((lo / fe, hi / fe))
                 if wlo - rel * abs(wlo) - at / abs(fe) <= v[i] <= whi + rel * abs(whi) + at / abs(fe):
                     bad = None
@@ -916,6 +918,7 @@ class P(Prop):
         if not isinstance(v, list) or len(v) != n:
             return "speed has %s values for %d fixes" % (len(v) if isinstance(v, list) else v, n)
         tmax = max(abs(t) for t in tms) / 1000.0
+        zmax = 3600.0 * max([abs(z) for z in zones or [0]])       # instants = readings shifted by the zone: float seconds of that size
         for i in range(n):
             a, b = (1, 0) if i == 0 else (n - 1, n - 2) if i == n - 1 else (i + 1, i - 1)
             els = [Fraction(tms[a] - tms[b], 1000)]
@@ -933,7 +936,8 @@ class P(Prop):
                 if el == 0:
                     continue
                 want = d / float(el)
-                rel = 1e-9 + (4 * ulp(tmax) / abs(float(el)) if any(t % 1000 for t in tms) else 0.0)
+                tm = tmax + zmax
+                rel = 1e-9 + (4 * ulp(tm) / abs(float(el)) if any(t % 1000 for t in tms) else 0.0)
                 if abs(v[i] - want) <= rel * max(abs(want), 1e-300):
                     bad = None
                     break
